@@ -985,7 +985,7 @@ struct Digit {
             --index;
             index += SizeT(number_length - precision);
 
-            roundStringNumber(stream, index, power_increased, round_up);
+            roundStringNumber(stream, index, power_increased, (round_up || hasNonZeroDigit(storage, started_at, index)));
 
             if (is_positive_exp) {
                 const SizeT diff =
@@ -1088,7 +1088,8 @@ struct Digit {
             if (diff <= precision) {
                 if (fraction_length > precision) {
                     index += SizeT(fraction_length - (precision + SizeT{1}));
-                    roundStringNumber(stream, index, power_increased, (round_up | (diff != 0)));
+                    roundStringNumber(stream, index, power_increased,
+                                      (round_up || hasNonZeroDigit(storage, started_at, index)));
 
                     Char_T       *number = (storage + index);
                     const Char_T *last   = stream.Last();
@@ -1163,6 +1164,20 @@ struct Digit {
                 insertZerosLarge(stream, SizeT32(precision - (dot_index - index)));
             }
         }
+    }
+
+    // The digits below the one being rounded (lower offsets: the number is still reversed) are part of the sticky bit.
+    template <typename Char_T>
+    static bool hasNonZeroDigit(const Char_T *storage, SizeT offset, const SizeT end_offset) noexcept {
+        while (offset < end_offset) {
+            if (storage[offset] != DigitUtils::DigitChar::Zero) {
+                return true;
+            }
+
+            ++offset;
+        }
+
+        return false;
     }
 
     template <typename Stream_T>
